@@ -141,6 +141,8 @@ type Stats struct {
 	Units       int
 	Violations  []FoundViolation
 	InfraErrors []string
+	// DivergenceRetries counts executions that were run again because the prefix did not fit.
+	DivergenceRetries int64
 }
 
 // FoundViolation is a confirmed (5x replayed) violation.
@@ -299,7 +301,7 @@ func Explore(body Body, o Options) Stats {
 	}
 	st := Stats{Exhaustive: true, BoundDone: o.Bound}
 	var mu sync.Mutex
-	var execs, points int64
+	var execs, points, divergenceRetries int64
 	var stop atomic.Bool
 	maxDepth := 0
 
@@ -424,6 +426,14 @@ func Explore(body Body, o Options) Stats {
 						return
 					}
 					x, v, infra := runOne(body, prefix, false, w)
+					// A prefix computed from the previous execution must fit this one. If it does not,
+					// one of the two executions met nondeterminism the harness does not control. Run
+					// the prefix again (counted, reported): a transient cause does not repeat, a
+					// systematic one does and is the infrastructure error it always was.
+					for k := 0; k < 3 && strings.HasPrefix(infra, "mc: replay divergence"); k++ {
+						atomic.AddInt64(&divergenceRetries, 1)
+						x, v, infra = runOne(body, prefix, false, w)
+					}
 					handle(x, v, infra, w)
 					if len(x.Choices) > maxDepth {
 						mu.Lock()
@@ -450,6 +460,7 @@ func Explore(body Body, o Options) Stats {
 	}
 	st.Executions = execs
 	st.Points = points
+	st.DivergenceRetries = atomic.LoadInt64(&divergenceRetries)
 	st.MaxDepth = maxDepth
 	return st
 }
